@@ -159,12 +159,25 @@ def m_callable(it, v):
     return callable(v)
 
 
+class LazyIter:
+    """what map() / filter() return: a one-shot iterator that computes each item when it is asked for"""
+
+    def __init__(self, gen):
+        self.gen = gen
+
+    def __iter__(self):
+        return self
+
+    def __next__(self):
+        return next(self.gen)
+
+
 def m_map(it, f, *its):
-    return [it.call(f, list(xs), {}) for xs in zip(*[it.iterate(i) for i in its])]
+    return LazyIter(it.call(f, list(xs), {}) for xs in zip(*[it.iterate(i) for i in its]))
 
 
 def m_filter(it, f, seq):
-    return [x for x in list(it.iterate(seq)) if it.truth(x if f is None else it.call(f, [x], {}))]
+    return LazyIter(x for x in it.iterate(seq) if it.truth(x if f is None else it.call(f, [x], {})))
 
 
 def m_list(it, seq=()):
